@@ -17,7 +17,9 @@ RULE = ('generated object graphs (3-70 objects, thorough up to 400; ints, floats
         'maxVars{0,1,3,10,25,default} x maxStr{0,4,8,default} x maxColl{0,2,3,default} x maxDepth{0,1,2,3,5,default} set '
         'through directly constructed LocationAction config keys; watches / log fields over the locals and fresh '
         'temporaries (so the limits of the action are checked on every source of values, D28); line-capture of return '
-        'values and raised exceptions; MockFrame chains for all_frame / no_frame. Driven through the real '
+        'values and raised exceptions; MockFrame chains for all_frame / no_frame; a forced 2-thread stream (two tracepoints '
+        'with different limits, thread 2 runs its tracepoint to the end while thread 1 is stopped by events inside the str() of '
+        'its first local: each snapshot must obey its OWN limits). Driven through the real '
         'TriggerHandler.trace_call on a real frame (rig.run_traced). Non-trivial = at least one limit was hit (a value '
         'cut, a collection capped, the budget exhausted or the depth limit reached). Distinct = canonical JSON of the case.')
 TRUSTED = ['CPython frame.f_locals / eval / id() semantics; str()/len()/tuple() of built-in types',
@@ -35,7 +37,10 @@ def gen(rng, tier):
         k += 1
         r = rng.random()
         n = rng.choice([120, 250, 400]) if big and rng.random() < 0.1 else None
-        if r < 0.62:
+        if k % 25 == 0:
+            # two tracepoints with different limits, the second one runs while the first is in the middle of its collection
+            yield cc.gen_race(rng)
+        elif r < 0.62:
             yield cc.gen_case(rng, nobj=n)
         elif r < 0.72:
             yield cc.gen_case(rng, nobj=n, capture=rng.choice(['return', 'exception']),
@@ -58,6 +63,12 @@ def corpus():
     nested = [{'t': 'list', 'e': [1, 2, 3]}, {'t': 'list', 'e': [4, 5, 6]}, {'t': 'list', 'e': [7, 8, 9]},
               {'t': 'list', 'e': [10, 11, 12]}] + [{'t': 'int', 'v': 300 + i} for i in range(9)] + [{'t': 'int', 'v': 7}]
     return [
+        # two tracepoints with different limits hit by two threads, the loose one while the tight one is collecting
+        {'kind': 'race', 'stream': 'race', 'frame_type': 'single_frame',
+         'objs': [{'t': 'str', 'v': 'abcdefghijklmnopqrstuvwxyz'}, {'t': 'list', 'e': [2, 2, 2, 2, 2]}, {'t': 'int', 'v': 7},
+                  {'t': 'list', 'e': [1]}],
+         'locals': [['s', 0], ['xs', 1], ['deep', 3]],
+         'actions': [{'limits': {'str': 8, 'coll': 2, 'depth': 2}}, {'limits': {'str': 64, 'coll': 20, 'depth': 8}}]},
         # D4: z = [[1,2,3],[4,5,6],[7,8,9]]; y = 7 with a budget of 3
         {'objs': nested, 'locals': [['z', 0], ['y', 13]], 'frame_type': 'single_frame', 'stream': 'corpus',
          'actions': [{'limits': {'vars': 3, 'str': None, 'coll': None, 'depth': None}}]},
@@ -72,6 +83,8 @@ def corpus():
 
 
 def run_impl(case):
+    if case.get('kind') == 'race':
+        return cc.run_race(case)
     return cc.run_case(case)
 
 
@@ -79,6 +92,8 @@ def oracle(case, obs):
     live = cc.live_of(obs)
     if live is None:
         raise core.Infra('oracle called without the live objects of its evaluation')
+    if case.get('kind') == 'race':
+        return cc.judge_race(case, obs, live)
     v = []
     if 'raised' in obs:
         v.append('trace_call raised into the host: ' + obs['raised'])
@@ -87,7 +102,12 @@ def oracle(case, obs):
     return v
 
 
-model_request = cc.model_request
+def model_request(case, obs):
+    if case.get('kind') == 'race':
+        return None           # a schedule of two threads: judged by the oracle (each snapshot against its own limits)
+    return cc.model_request(case, obs)
+
+
 compare = cc.compare
 shrink = cc.shrink_case
 
@@ -108,9 +128,13 @@ def hit(case, obs):
 
 
 def label(case, obs):
+    if case.get('kind') == 'race':
+        return 'race/' + ('overlap' if obs.get('overlapped') else 'serial')
     kind = 'mock/' + case.get('frame_type', '') if case.get('mock') else ('capture' if case.get('capture') else 'frame')
     return kind + '/' + '+'.join(sorted(hit(case, obs)) or ['none'])
 
 
 def nontrivial(case, obs):
+    if case.get('kind') == 'race':
+        return bool(obs.get('overlapped'))
     return bool(hit(case, obs) - {'depth'})
